@@ -29,6 +29,29 @@ def allowed (req : Bytes) : List Bytes :=
     else []
   else []
 
+/-- what the property lets one run of `cleanuppid()` remove: `pid/<name>` for an entry `<name>` of the
+directory whose `stat` succeeded with an access time at least OSSIFIED (36 hours) before `now()` -/
+def pidOld (sc : Scan) (p : Bytes) : Bool :=
+  match sc.ents with
+  | none => false
+  | some es => es.any (fun e => p == PIDDIR ++ e.name &&
+      (match e.atime with | some t => decide (t + OSSIFIED ≤ sc.now) | none => false))
+
+/-- the unlinks between `opendir("pid")` and `closedir`: each must be an old `pid/` entry of this scan -/
+def takePid (sc : Scan) : List Ev → Option (List Ev)
+  | .unlink p :: r => if pidOld sc p then takePid sc r else none
+  | .cleanupEnd :: r => some r
+  | _ => none
+
+/-- an optional `cleanuppid()` window at the head of the trace (it consumes one scan): the scans
+left and the rest of the trace; `none` = the window is not what the property allows -/
+def takeScan (scans : List Scan) : List Ev → Option (List Scan × List Ev)
+  | .cleanup :: r =>
+      (match (scans.headD {}).ents with
+       | none => some (scans.tail, r)
+       | some _ => (takePid (scans.headD {}) r).map (fun rest => (scans.tail, rest)))
+  | evs => some (scans, evs)
+
 /-- the events up to and including the first status byte: the paths unlinked, the status, the rest -/
 def takeGroup : List Ev → Option (List Bytes × Byte × List Ev)
   | [] => none
@@ -36,16 +59,22 @@ def takeGroup : List Ev → Option (List Bytes × Byte × List Ev)
       | some (ps, s, rest) => some (p :: ps, s, rest)
       | none => none
   | .status s :: r => some ([], s, r)
-  | .cleanup :: r => takeGroup r
+  | .cleanup :: _ => none
+  | .cleanupEnd :: _ => none
 
 /-- one answer per request, in order; a request only removes what it names; a rejected request
-removes nothing; nothing happens after the last request -/
-def cleanOK : List Bytes → List Ev → Bool
-  | [], evs => evs.all (· == Ev.cleanup)
-  | q :: qs, evs => match takeGroup evs with
+removes nothing; before a request (and after the last one) at most one `cleanuppid()` window, which
+removes only old `pid/` entries of the directory it was shown; nothing else happens -/
+def cleanOK : List Bytes → List Scan → List Ev → Bool
+  | [], scans, evs => (match takeScan scans evs with
+      | some (_, rest) => rest.isEmpty
+      | none => false)
+  | q :: qs, scans, evs => match takeScan scans evs with
       | none => false
-      | some (ps, s, rest) =>
-          ps.all (fun p => (allowed q).contains p) && (s != stX || ps.isEmpty) && cleanOK qs rest
+      | some (scans', evs') => match takeGroup evs' with
+        | none => false
+        | some (ps, s, rest) =>
+            ps.all (fun p => (allowed q).contains p) && (s != stX || ps.isEmpty) && cleanOK qs scans' rest
 
 end clean
 
@@ -116,7 +145,9 @@ def sortNat (l : List Nat) : List Nat := l.foldr insertSorted []
 k-th opened file; `pend = some (bad, p)` when the previous event was the open of `p` and `bad` says
 that `p` was not a regular file of the queue user.  Every opened path is the message id of a
 command and is well-formed; a child is created only right after an open, and never after a bad
-one; after a bad open the very next event is a `Z` report for a command naming that file. -/
+one, and it is created in the slot, with the sender and with the recipient of a command that names
+the file just opened; after a bad open the very next event is a `Z` report for a command naming
+that file. -/
 def opensGo (cmds : List Cmd) : Option (Bool × Bytes) → List Nat → List Ev → Bool
   | pend, _, [] => (match pend with | some (true, _) => false | _ => true)
   | pend, plan, e :: rest =>
@@ -125,8 +156,10 @@ def opensGo (cmds : List Cmd) : Option (Bool × Bytes) → List Nat → List Ev 
         let bad := plan.headD 0 = 3 ∨ plan.headD 0 = 4 ∨ plan.headD 0 = 7 ∨ plan.headD 0 = 8
         (match pend with | some (true, _) => false | _ => true) &&
         okPath p && cmds.any (fun c => c.messid == p) && opensGo cmds (some (decide bad, p)) plan.tail rest
-    | .spawnCall _ _ _ _ =>
-        (match pend with | some (false, _) => true | _ => false) && opensGo cmds none plan rest
+    | .spawnCall s sd rc _ =>
+        (match pend with
+          | some (false, p) => cmds.any (fun c => c.messid == p && c.delnum == s && c.sender == sd && c.recip == rc)
+          | _ => false) && opensGo cmds none plan rest
     | .report d body =>
         (match pend with
           | some (true, p) => body.head? == some 90 && cmds.any (fun c => c.messid == p && c.delnum == d)
